@@ -83,7 +83,7 @@ func (sc *scnCheck) runFamily(w *fw.W, fi int, f scnFamily) {
 			for i := 0; i < 4; i++ {
 				r2, m2 := replayScnSeq(s, ans, modes, false)
 				if s2, _ := sc.Judge(s, r2, m2); s2 != sig {
-					w.Notes = append(w.Notes, "HARNESS ERROR: "+sc.ID+" violation did not reproduce: "+key)
+					w.Notes = append(w.Notes, "UNREPRODUCED: "+sc.ID+" violation did not reproduce: "+key)
 					return
 				}
 			}
